@@ -26,7 +26,59 @@ pub fn run_fault_free(id: &'static str, plan: &ClientPlan, want_trace: bool) -> 
     out.stats = j.stats;
     run.add_stats(&mut out.stats);
     out.trace_hash = run.trace_hash();
-    out.shape = shape_of(plan, &run);
+    out.shape = {
+        let mut h = crate::rng::Hasher64::default();
+        h.u64(shape_of(plan, &run));
+        // value classes count as distinct cases where the property ranges over values
+        match id {
+            "C08" => {
+                let pre = plan.cfg.pre_auth;
+                h.u64(pre.checked_ilog10().map(|d| d as u64 + 1).unwrap_or(0));
+                h.u64(plan.cfg.currency as u64);
+                for op in &plan.ops {
+                    match op {
+                        OpSpec::Commit { amount, token, .. } => {
+                            h.u8(if *amount == 0 { 0 } else if *amount < pre { 1 } else if *amount == pre { 2 } else if *amount < (1 << 63) { 3 } else { 4 });
+                            h.u64(token.len().min(70) as u64 / 8);
+                            h.u8(token.bytes().any(|b| b >= 0x80) as u8);
+                        }
+                        OpSpec::Begin { token, .. } => h.u64(token.len().min(70) as u64 / 8),
+                        _ => {}
+                    }
+                }
+            }
+            "C18" => {
+                for op in &plan.ops {
+                    if let OpSpec::ReadCard { card } = op {
+                        match &card.kind {
+                            CardKind::Abort(c) => {
+                                h.u8(1);
+                                h.u8(*c)
+                            }
+                            CardKind::Card { uid, apps, no_tlv, .. } => {
+                                h.u8(2);
+                                h.u64(uid.as_ref().map(|u| u.len() as u64 + 1).unwrap_or(0));
+                                h.u8(uid.as_ref().map(|u| u.starts_with("000000") as u8 + 2 * u[u.len().saturating_sub(14)..].starts_with("000000") as u8).unwrap_or(9));
+                                match apps {
+                                    None => h.u8(0),
+                                    Some(a) => {
+                                        h.u8(1 + a.len() as u8);
+                                        for x in a {
+                                            h.u8(x.aid.is_some() as u8 * 2 + x.ctype.is_some() as u8);
+                                        }
+                                    }
+                                }
+                                h.u8(*no_tlv as u8);
+                            }
+                        }
+                        h.u8(card.pre);
+                    }
+                }
+            }
+            _ => {}
+        }
+        h.finish()
+    };
     out.nontrivial = !plan.ops.is_empty();
     if want_trace {
         out.trace = run.trace();
@@ -500,7 +552,7 @@ impl Check for ClientCheck {
                 };
                 fams.push(Family::new(
                     "all_histories_3_tokens_x_max_0_3_x_all_outcomes",
-                    history_count(3, depth),
+                    history_count(9, depth),
                     true,
                     move |i, _| history_at(i, &TOKENS3, depth),
                 ));
@@ -699,7 +751,7 @@ impl Check for ClientCheck {
                 let depth = 3;
                 fams.push(Family::new(
                     "all_histories_depth_3",
-                    history_count(3, depth),
+                    history_count(9, depth),
                     true,
                     move |i, _| history_at(i, &TOKENS3, depth),
                 ));
